@@ -30,14 +30,18 @@ class HelpResolver(DefaultResolver):
     def create_resolved_command(
         self, result
     ):  # type: (ResolveResult) -> ResolvedCommand
-        result.command.config.enable_lenient_args_parsing()
+        config = result.command.config
+        was_lenient = config.is_lenient_args_parsing_enabled()
 
-        # The arguments may already have been parsed strictly while looking
-        # for a parsable default command: parse them again, leniently.
-        result = ResolveResult(result.command, result.raw_args)
+        config.enable_lenient_args_parsing()
 
-        resolved_command = super(HelpResolver, self).create_resolved_command(result)
+        try:
+            # The arguments may already have been parsed strictly while looking
+            # for a parsable default command: parse them again, leniently.
+            result = ResolveResult(result.command, result.raw_args)
 
-        result.command.config.disable_lenient_args_parsing()
-
-        return resolved_command
+            return super(HelpResolver, self).create_resolved_command(result)
+        finally:
+            # Also when parsing fails (e.g. a value of the wrong type)
+            if not was_lenient:
+                config.disable_lenient_args_parsing()
